@@ -39,6 +39,7 @@ def run(ctx, repo):
     ctx.call(RS.r_doc_reset, repo)
     ctx.call(R6B.r_first_document_state_once, repo)
     ctx.call(RR2.r_event_brackets, repo)
+    ctx.call(RR2.r_no_nondeterminism, repo)
     ctx.call(RX.r_docmarker_column0, repo)
     ctx.call(R10.r_docmarker_follow_agree, repo)
     ctx.call(RX.r_buffer_encapsulated, repo)
